@@ -1785,7 +1785,13 @@ impl Runtime {
             "current-output-port" => Ok(Val::Port(self.default_port())),
             "current-output-port" | "open-file" => {
                 let dest = if name == "open-file" {
-                    format!("file:{}", as_str(args.first().unwrap_or(&Val::Unspec), name)?)
+                    // the standard streams under their other names are the same kernel objects as the
+                    // ports the runtime already has — reached through a second port with its own buffer
+                    match as_str(args.first().unwrap_or(&Val::Unspec), name)? {
+                        "/dev/stdout" | "/dev/fd/1" | "/proc/self/fd/1" => "stdout".to_string(),
+                        "/dev/stderr" | "/dev/fd/2" | "/proc/self/fd/2" => "stderr".to_string(),
+                        other => format!("file:{other}"),
+                    }
                 } else {
                     "stdout".to_string()
                 };
